@@ -26,7 +26,7 @@ def one(diff):
         metat = None
         old = json.load(open(os.path.join(os.path.dirname(diff), "meta.json")))
     else:
-        prop = re.search(r"wt_(C\d+)", diff).group(1)
+        prop = re.search(r"wt\d*_(C\d+)", diff).group(1)
         k = os.path.basename(diff)[:-5]
         demo = diff[:-5] + "_demo.py"
         metat = diff[:-5] + "_meta.txt"
